@@ -40,6 +40,39 @@ fn attrs_str(pre: &str, a: &OsuDifficultyAttributes) -> String {
 }
 
 pub fn pipe_case(run: &mut Run, id: &str, map: &Beatmap, settings: &Settings, passed: Option<u32>, rng: &mut Rng, repro: &str) {
+    pipe_case_impl(run, id, map, settings, passed, rng, repro, None);
+}
+
+/// `PIPE osub`: the same comparison starting from the BYTES of the file (`Model/PipelineBytes.lean`):
+/// the request carries the bytes, the attribute-builder outputs / settings and, per slider, the curve
+/// data (`path.dist()`, nested positions, raw lazy end position) from the hooks.
+pub fn pipe_bytes_case(run: &mut Run, id: &str, bytes: &[u8], settings: &Settings, passed: Option<u32>, rng: &mut Rng) {
+    let hexb: String = if bytes.is_empty() { "-".to_owned() } else { bytes.iter().map(|b| format!("{b:02x}")).collect() };
+    let repro = format!("settings={} passed_objects={passed:?} bytes=<<{}>>", settings.describe(), String::from_utf8_lossy(bytes));
+    let b2 = bytes.to_vec();
+    let map = match guarded(move || Beatmap::from_bytes(&b2)) {
+        Ok(Ok(m)) => m,
+        Ok(Err(_)) => {
+            run.count("PIPE-osub:stage:io-error");
+            run.line(id, format!("PIPE osub {hexb} 0 0 0 0 0 0 0 0 0 00000 - - -"), "IOERR".to_owned());
+            return;
+        }
+        Err(_) => {
+            run.count("PIPE-osub: decode panicked (not compared; C05)");
+            return;
+        }
+    };
+    if map.mode != GameMode::Osu {
+        run.count("PIPE-osub:stage:other-mode");
+        run.line(id, format!("PIPE osub {hexb} 0 0 0 0 0 0 0 0 0 00000 - - -"), format!("OTHERMODE {}", map.mode as u8));
+        return;
+    }
+    run.count("PIPE-osub:stage:decoded");
+    pipe_case_impl(run, id, &map, settings, passed, rng, &repro, Some(&hexb));
+}
+
+#[allow(clippy::too_many_arguments)]
+fn pipe_case_impl(run: &mut Run, id: &str, map: &Beatmap, settings: &Settings, passed: Option<u32>, rng: &mut Rng, repro: &str, bytes_hex: Option<&str>) {
     if map.mode != GameMode::Osu {
         return;
     }
@@ -83,6 +116,10 @@ pub fn pipe_case(run: &mut Run, id: &str, map: &Beatmap, settings: &Settings, pa
             gidx.push(1);
             gidx.push(n);
         }
+        if bytes_hex.is_some() {
+            gidx.push(n + 1);
+            gidx.push(n + 3);
+        }
         gidx.sort_unstable();
         gidx.dedup();
         for i in &gidx {
@@ -96,6 +133,7 @@ pub fn pipe_case(run: &mut Run, id: &str, map: &Beatmap, settings: &Settings, pa
         }
     }
     let mut objs: Vec<String> = Vec::with_capacity(n);
+    let mut curves: Vec<String> = Vec::new();
     let mut n_nested = 0usize;
     for (o, sl) in probe.raw.iter().zip(sliders.iter()) {
         match (o.kind, sl) {
@@ -108,6 +146,7 @@ pub fn pipe_case(run: &mut Run, id: &str, map: &Beatmap, settings: &Settings, pa
                 } else {
                     o.nested.iter().map(|q| format!("{},{}", h32(q.pos.x), h32(q.pos.y))).collect::<Vec<_>>().join("/")
                 };
+                curves.push(format!("{}:{}:{}:{}", i.dist.to_bits(), h32(o.lazy_end_pos.x), h32(o.lazy_end_pos.y), ns));
                 objs.push(format!(
                     "s:{}:{}:{}:{}:{}:{}:{}:{}:{}:{}:{}",
                     h32(o.pos.x),
@@ -140,6 +179,33 @@ pub fn pipe_case(run: &mut Run, id: &str, map: &Beatmap, settings: &Settings, pa
     run.count(&format!("PIPE-osu:nested:{}", match n_nested { 0 => "0", 1..=9 => "1-9", _ => ">=10" }));
     run.count(&format!("PIPE-osu:stars:{}", if attrs.stars == 0.0 { "0" } else { ">0" }));
     run.count(&format!("PIPE-osu:version:{}", if map.version >= 8 { ">=8" } else if map.version >= 6 { "6-7" } else { "<6" }));
+    if let Some(hexb) = bytes_hex {
+        run.count("lines:PIPE-osub");
+        run.count(&format!("PIPE-osub:sliders:{}", match curves.len() { 0 => "0", 1..=5 => "1-5", _ => ">5" }));
+        run.repro.insert(id.to_owned(), repro.to_owned());
+        run.line(
+            id,
+            format!(
+                "PIPE osub {hexb} {} {} {} {} {} {} {} {} {} {} {} {} {}",
+                probe.reflection,
+                h64(probe.cs),
+                h64(probe.ar_window),
+                h64(attrs.ar),
+                h64(attrs.hp),
+                h64(attrs.great_hit_window),
+                h64(attrs.ok_hit_window),
+                h64(attrs.meh_hit_window),
+                h64(probe.clock_rate),
+                flags,
+                if take == usize::MAX { "-".to_owned() } else { take.to_string() },
+                if gidx.is_empty() { "-".to_owned() } else { gidx.iter().map(|i| i.to_string()).collect::<Vec<_>>().join(",") },
+                if curves.is_empty() { "-".to_owned() } else { curves.join(";") }
+            ),
+            format!("{}{gvals}", attrs_str("", &attrs)),
+        );
+        run.eval((n > 0).then_some(id));
+        return;
+    }
     run.count("lines:PIPE-osu");
     run.repro.insert(id.to_owned(), repro.to_owned());
     run.line(
@@ -200,6 +266,9 @@ pub fn run(run: &mut Run, tier: &str, seed: u64, only: Option<&str>) {
         };
         let repro = format!("{text}\n# settings: {} passed_objects: {passed:?}", settings.describe());
         pipe_case(run, &id, &map, &settings, passed, &mut rng, &repro);
+        // the same map as a FILE (byte-level variants) through the decoder-first pipeline
+        let bytes = crate::mapgen::file_variant(&mut rng, &text);
+        pipe_bytes_case(run, &format!("{id}#bytes"), &bytes, &settings, passed, &mut rng);
     }
     // hand-made pattern maps of the OSK probes (spinner -> slider, jumps at every angle, stacks, 1 ms gaps, ...)
     let mut prng = Rng::new(seed ^ 0x05c);
@@ -224,6 +293,10 @@ pub fn run(run: &mut Run, tier: &str, seed: u64, only: Option<&str>) {
             let passed = if si % 2 == 0 { None } else { Some(rng.below(len + 3) as u32) };
             let repro = format!("settings={} passed_objects={passed:?} map=<<\n{}>>", st.describe(), spec.render());
             pipe_case(run, &id, &map, st, passed, &mut rng, &repro);
+            if si < 2 {
+                let bytes = crate::mapgen::file_variant(&mut rng, &spec.render());
+                pipe_bytes_case(run, &format!("{id}#bytes"), &bytes, st, passed, &mut rng);
+            }
         }
     }
     for (i, (mode, text)) in resource_maps().into_iter().enumerate() {
